@@ -41,6 +41,11 @@ class Tok:
     const_proto_assumed = 1
     const_proto_read = False
 
+    def sa_type(self):
+        if not self.cls or self.op in ("BODY", "CONST"):
+            raise Unsupported(f"type() of the abstract opcode {self.op}")
+        return OpCtor.of(self.cls, self.op)
+
     def sa_attr(self, name: str):
         """what the helpers may read off an opcode object: .arg, .name, .info.{proto,name}"""
         if name == "arg":
@@ -62,6 +67,29 @@ class Tok:
 
     def __repr__(self):
         return self.op if self.arg is None else f"{self.op}({self.arg!r})"
+
+
+class OpCtor:
+    """An opcode class as a value (looked up in a table, compared with `is`, returned by type(opcode))."""
+
+    _cache: Dict[str, "OpCtor"] = {}
+
+    def __init__(self, cname: str, opname: str):
+        self.cname, self.opname = cname, opname
+
+    @classmethod
+    def of(cls, cname: str, opname: str) -> "OpCtor":
+        if cname not in cls._cache:
+            cls._cache[cname] = OpCtor(cname, opname)
+        return cls._cache[cname]
+
+    def sa_call(self, args, kw):
+        if self.cname == "Global":
+            return Tok("GLOBAL", tuple(args), self.cname)
+        return Tok(self.opname, args[0] if args else None, self.cname)
+
+    def __repr__(self):
+        return f"<class {self.cname}>"
 
 
 class MemoLen:
@@ -107,6 +135,13 @@ class Harness:
         co = repo.cls("fickling.fickle.ConstantOpcode")
         self.const_classes = {c.name for c in repo.subclasses(co, strict=True)}
         self.const_opnames = {self.opname[c] for c in self.const_classes if c in self.opname}
+
+    def objeval(self):
+        if getattr(self, "_oe", None) is None:
+            from .c15 import make_objeval
+
+            self._oe = make_objeval(self.repo)
+        return self._oe
 
     # ---- abstract Pickled object
     def new_self(self, tokens: List[Tok]) -> Record:
@@ -209,9 +244,24 @@ class Harness:
                 v = args[0]
                 if isinstance(v, (list, dict, tuple, set)) or v is None:
                     raise PyRaise("ValueError")
+                # which class wins is decided by the repository's own priority search, interpreted (sa/objeval)
+                try:
+                    inst = h.objeval().ref(h.repo.cls(f"fickling.fickle.{parts[0]}")).sa_attr("new")(v)
+                    cn = inst.c.name
+                    if cn in h.opname:
+                        return Tok(h.opname[cn], v, cn)
+                except Unsupported:
+                    pass
                 return Tok("CONST", v, parts[0])
             if name == "Interpreter":
-                snap = tuple(repr(t) for t in args[0].fields["tokens"])
+                toks_now = args[0].fields["tokens"]
+                snap = tuple(repr(t) for t in toks_now)
+                if not any(t.op == "BODY" for t in toks_now):
+                    # a concrete base: the memo after a run is known exactly (pickletools semantics of PUT-family / MEMOIZE)
+                    mem = concrete_memo(toks_now)
+                    r = Record("Interpreter", {"memory": mem, "ran": False})
+                    r.fields["()run"] = lambda _r=r: _r.fields.__setitem__("ran", True)
+                    return r
                 r = Record("Interpreter", {"memory": MemoryView(snap), "ran": False})
                 r.fields["()run"] = lambda _r=r: _r.fields.__setitem__("ran", True)
                 return r
@@ -225,7 +275,20 @@ class Harness:
                 return b"<marshalled code>"
             return _MISSING
 
-        return Evaluator(env, isinstance_hook=inst, call_hook=hook)
+        ev_ = Evaluator(env, isinstance_hook=inst, call_hook=hook)
+        ev_.name_hook = lambda nm: OpCtor.of(nm, h.opname[nm]) if nm in h.opname else _MISSING
+        return ev_
+
+
+def concrete_memo(tokens) -> Dict[int, str]:
+    """Memo keys -> a label of what was memoised, after running a concrete token list (STOP excluded)."""
+    memo: Dict[int, str] = {}
+    for i, t in enumerate(tokens):
+        if t.op in ("PUT", "BINPUT", "LONG_BINPUT"):
+            memo[_intkey(t.arg)] = f"@{i}"
+        elif t.op == "MEMOIZE":
+            memo[len(memo)] = f"@{i}"
+    return memo
 
 
 class MemoryView:
@@ -275,6 +338,8 @@ def run_tokens(tokens: List[Tok], by_name) -> Dict[str, Any]:
     executed: List[str] = []
     mark = object()
     stopped_at = None
+    concrete = not any(t.op == "BODY" for t in tokens)
+    cmemo: Dict[int, Any] = {}
     for idx, t in enumerate(tokens):
         if stopped_at is not None:
             raise VMError(f"opcode {t} after STOP")
@@ -306,6 +371,14 @@ def run_tokens(tokens: List[Tok], by_name) -> Dict[str, Any]:
             stack.append((op.lower(),) + tuple(items))
         elif op == "EMPTY_DICT":
             stack.append(("dict",))
+        elif op == "EMPTY_LIST":
+            stack.append(("list",))
+        elif op == "EMPTY_TUPLE":
+            stack.append(("tuple",))
+        elif op == "NONE":
+            stack.append(("const", None))
+        elif op in ("NEWTRUE", "NEWFALSE"):
+            stack.append(("const", op == "NEWTRUE"))
         elif op == "REDUCE":
             if len(stack) < 2 or stack[-1] is mark or stack[-2] is mark:
                 raise VMError("REDUCE: needs callable and argument tuple")
@@ -325,12 +398,24 @@ def run_tokens(tokens: List[Tok], by_name) -> Dict[str, Any]:
             if not stack or stack[-1] is mark:
                 raise VMError("PUT: nothing to memoize")
             memo[("lit", _intkey(t.arg))] = stack[-1]
+            if concrete and isinstance(_intkey(t.arg), int):
+                cmemo[_intkey(t.arg)] = stack[-1]
         elif op == "MEMOIZE":
             if not stack or stack[-1] is mark:
                 raise VMError("MEMOIZE: nothing to memoize")
             memo[("len", tuple(executed))] = stack[-1]
+            if concrete:
+                cmemo[len(cmemo)] = stack[-1]
         elif op in ("GET", "BINGET", "LONG_BINGET"):
             k = t.arg
+            if concrete and isinstance(_intkey(k) if isinstance(k, (str, bytes, int)) else None, int):
+                # a concrete base: the memo is known exactly; GET delivers what the real VM would deliver
+                kk = _intkey(k)
+                if kk not in cmemo:
+                    raise VMError(f"GET {kk} reads a memo key that is not set at that point (memo keys: {sorted(cmemo)[:8]}...)")
+                stack.append(cmemo[kk])
+                executed.append(repr(t))
+                continue
             if isinstance(k, MemoSym):
                 raise VMError(f"GET reads the key `{k.text}` (of a symbolic run of the base); the value was saved by MEMOIZE, which writes at len(memo): the two differ whenever the base pickle's memo keys are not 0..n-1 (assembler programs, Python-2 pickles with BINPUT 1, 2, ...)")
             if isinstance(k, MemoLen):
@@ -364,8 +449,43 @@ def _intkey(a):
 
 
 # ------------------------------------------------------------------ the check
-def base_tokens(header=("PROTO", "FRAME"), body_proto: int = 4) -> List[Tok]:
-    return [Tok(hh, 4, hh.title()) for hh in header] + [Tok("BODY", proto=body_proto), Tok("STOP", None, "Stop")]
+def _memo_entries(kind: str, keys) -> List[Tok]:
+    """Net-zero filler that leaves memo entries behind: <const> <put k> POP for each key."""
+    cls = {"BINPUT": "BinPut", "LONG_BINPUT": "LongBinPut", "PUT": "Put", "MEMOIZE": "Memoize"}[kind]
+    out = []
+    for k in keys:
+        out += [Tok("BININT1", 7, "BinInt1"), Tok(kind, None if kind == "MEMOIZE" else k, cls), Tok("POP", None, "Pop")]
+    return out
+
+
+# concrete base bodies ([] -> [a list object]) with memo layouts the abstract BODY cannot express: name -> tokens
+CONCRETE_BODIES = {
+    "no-memo": lambda: [Tok("EMPTY_LIST", None, "EmptyList")],
+    "memoize-1": lambda: [Tok("EMPTY_LIST", None, "EmptyList"), Tok("MEMOIZE", None, "Memoize")],
+    "binput-0": lambda: [Tok("EMPTY_LIST", None, "EmptyList"), Tok("BINPUT", 0, "BinPut")],
+    "binput-sparse-1": lambda: [Tok("EMPTY_LIST", None, "EmptyList"), Tok("BINPUT", 1, "BinPut")],
+    "put-out-of-order": lambda: [Tok("EMPTY_LIST", None, "EmptyList"), Tok("BINPUT", 1, "BinPut")] + _memo_entries("BINPUT", [0]),
+    "put-then-memoize": lambda: [Tok("EMPTY_LIST", None, "EmptyList"), Tok("BINPUT", 1, "BinPut")] + _memo_entries("MEMOIZE", [None]),
+    "text-put-5": lambda: [Tok("EMPTY_LIST", None, "EmptyList"), Tok("PUT", 5, "Put")],
+    "long-binput-300-entries": lambda: [Tok("EMPTY_LIST", None, "EmptyList"), Tok("BINPUT", 0, "BinPut")] + _memo_entries("BINPUT", range(1, 256)) + _memo_entries("LONG_BINPUT", range(256, 300)),
+    "memoize-300-entries": lambda: [Tok("EMPTY_LIST", None, "EmptyList"), Tok("MEMOIZE", None, "Memoize")] + _memo_entries("MEMOIZE", [None] * 299),
+}
+
+
+def base_tokens(header=("PROTO", "FRAME"), body_proto: int = 4, body: Optional[str] = None) -> List[Tok]:
+    mid = CONCRETE_BODIES[body]() if body else [Tok("BODY", proto=body_proto)]
+    return [Tok(hh, 4, hh.title()) for hh in header] + mid + [Tok("STOP", None, "Stop")]
+
+
+def _strict_eq(a, b) -> bool:
+    """Equality that tells True from 1 and 0.0 from 0 (what the injected call actually receives)."""
+    if type(a) is not type(b):
+        return False
+    if isinstance(a, (list, tuple)):
+        return len(a) == len(b) and all(_strict_eq(x, y) for x, y in zip(a, b))
+    if isinstance(a, dict):
+        return len(a) == len(b) and all(_strict_eq(k1, k2) and _strict_eq(a[k1], b[k2]) for k1, k2 in zip(a, b))
+    return a == b
 
 
 def _value_of(v):
@@ -410,7 +530,7 @@ def run(rep: Report, tier: str):
     rep.assume("the base pickle's body nets [] -> [obj] with an empty stack before STOP (what the property presupposes)")
     rep.assume("pickletools stack effects for GLOBAL MARK TUPLE LIST DICT REDUCE POP PUT GET MEMOIZE STOP")
 
-    ARGSETS = [("CODE",), (), ("a", [1, "x"], {"k": 2, "e": {}})]
+    ARGSETS = [("CODE",), (), ("a", [1, "x"], {"k": 2, "e": {}}), (0, 1, True, False, "retries", [0, True], {"n": 1, "flag": False})]
     HEADERS = [("PROTO", "FRAME"), ()]
     if tier == "thorough":
         ARGSETS += [(1, 2, 3, 4), ([[["deep"]]],), ({"a": {"b": {"c": [1, {"d": 2}]}}},), ("x" * 300,), (b"bytes", 7)]
@@ -437,12 +557,22 @@ def run(rep: Report, tier: str):
     WORLDS = [(hd, 4, 3) for hd in HEADERS] + [((), 0, 3), (("PROTO", "FRAME"), 4, 300)]
     if tier == "thorough":
         WORLDS += [((), 0, 300), (("PROTO", "FRAME"), 4, 70000), ((), 4, 70000), (("PROTO",), 2, 300)]
-    cases = [(hp, lb, a, k, m, hd, bp, mg, 1) for (hp, lb, a, k, m) in cases for (hd, bp, mg) in WORLDS]
+    base_cases = cases
+    cases = [(hp, lb, a, k, m, hd, bp, mg, 1, None) for (hp, lb, a, k, m) in base_cases for (hd, bp, mg) in WORLDS]
+    # concrete bases: memo layouts the abstract BODY cannot express (sparse keys, keys written out of order, PUT and MEMOIZE
+    # mixed, more than 255 entries).  Argument shape #0 only: the memo interplay does not depend on the arguments.
+    bodies = list(CONCRETE_BODIES) if tier == "thorough" else [b for b in CONCRETE_BODIES if b != "memoize-300-entries"]
+    for (hp, lb, a, k, m) in base_cases:
+        if hp == "insert_magic_int" or ",args#1" in lb or ",args#2" in lb or "args#" in lb and not lb.endswith("args#0"):
+            continue
+        for b in bodies:
+            cases.append((hp, lb, a, k, m, ("PROTO",) if "binput" in b or "put" in b else ("PROTO", "FRAME"), 2 if "put" in b else 4, 3, 1, b))
+    skipped_abstract = set()
     ci = 0
     while ci < len(cases):
-        helper, label0, args, kw, mode, header, body_proto, memo_mag, const_proto = cases[ci]
+        helper, label0, args, kw, mode, header, body_proto, memo_mag, const_proto, body = cases[ci]
         ci += 1
-        label = f"{label0},header={'+'.join(header) or 'none'}" + (f",base-protocol={body_proto}" if body_proto != 4 else "") + (f",memo-size~{memo_mag}" if memo_mag != 3 else "") + (f",constant-opcode-protocol={const_proto}" if const_proto != 1 else "")
+        label = f"{label0},header={'+'.join(header) or 'none'}" + (f",base-protocol={body_proto}" if body_proto != 4 else "") + (f",memo-size~{memo_mag}" if memo_mag != 3 else "") + (f",constant-opcode-protocol={const_proto}" if const_proto != 1 else "") + (f",base={body}" if body else "")
         MemoLen.magnitude = memo_mag
         Tok.const_proto_assumed = const_proto
         Tok.const_proto_read = False
@@ -452,7 +582,11 @@ def run(rep: Report, tier: str):
             raise AnalysisError(f"Pickled.{helper} not found")
         q = f"{P}.{helper}"
         where = f"{f.file}:{f.line}"
-        toks = base_tokens(header, body_proto)
+        toks = base_tokens(header, body_proto, body)
+        try:
+            OBJ = run_tokens(list(toks), h.by_name)["stack"] if body else ["obj"]
+        except VMError as e:
+            raise AnalysisError(f"concrete base {body} does not run on the template VM: {e}")
         me = h.new_self(toks)
         try:
             ret = h.call_method(me, helper, list(args), dict(kw))
@@ -460,10 +594,16 @@ def run(rep: Report, tier: str):
             rep.ok("C08.once", q, f"[{label}] refused at build time with {pe.name}", where, nontrivial=False)
             continue
         except Unsupported as e:
+            if body is None and "abstract opcode BODY" in str(e):
+                # the helper inspects the base's own opcodes one by one: undecidable over the abstract BODY, decided over
+                # the concrete bases below
+                skipped_abstract.add((helper, label0))
+                rep.info(f"{q} [{label}]: inspects individual opcodes of the base ({e}); decided over the concrete bases instead")
+                continue
             raise AnalysisError(f"{q} [{label}]: cannot interpret the helper over the abstract opcode list: {e}")
         finally:
             if Tok.const_proto_read and const_proto == 1:
-                cases.append((helper, label0, args, kw, mode, header, body_proto, memo_mag, 0))
+                cases.append((helper, label0, args, kw, mode, header, body_proto, memo_mag, 0, body))
         n_eval += 1
         seq = " ".join(repr(t) for t in toks)
         # ---- stop-last
@@ -496,14 +636,14 @@ def run(rep: Report, tier: str):
         else:
             want = None
         if mode == "magic":
-            if stack == ["obj"] and not reduces:
+            if stack == OBJ and not reduces:
                 rep.ok("C08.balanced", q, f"[{label}] INT/POP pair is net-zero: stack at STOP is [obj]", where)
             else:
                 rep.bad("C08.balanced", q, f"unbalanced:{label0}", f"[{label}] stack at STOP is {stack!r} (expected [obj]); sequence `{seq}`", f.file, f.line)
             continue
         if mode == "keep":
-            if stack != ["obj"]:
-                rep.bad("C08.balanced", q, f"unbalanced:{label0}", f"[{label}] stack at STOP is {stack!r}, expected exactly [obj]: the VM returns / leaves something other than the original object; sequence `{seq}`", f.file, f.line)
+            if stack != OBJ:
+                rep.bad("C08.balanced", q, f"unbalanced:{label0}", f"[{label}] stack at STOP is {stack!r}, expected exactly {OBJ!r} (the original object): the VM returns / leaves something other than the original object; sequence `{seq[:400]}`", f.file, f.line)
             else:
                 rep.ok("C08.balanced", q, f"[{label}] stack at STOP is [obj]", where)
         elif mode in ("replace", "function"):
@@ -524,7 +664,7 @@ def run(rep: Report, tier: str):
                 fn, a = fn_calls[0]
                 src_call = reduces[fn[1]]
                 got_args = list(a[1:])
-                want_args = ["obj"] + [("const", x) for x in (kw.get("constant_args") or [])]
+                want_args = list(OBJ) + [("const", x) for x in (kw.get("constant_args") or [])]
                 ok = src_call[0][:3] == ("global", "builtins", "eval") and _value_of(src_call[1]) == ("injected_fn",) and got_args == want_args
             defs = [r for r in reduces if isinstance(r[0], tuple) and r[0][:3] == ("global", "builtins", "exec")]
             if ok and len(defs) == 1:
@@ -534,7 +674,7 @@ def run(rep: Report, tier: str):
             continue
         mod, attr = kw.get("module", "builtins"), kw.get("attr", "exec" if helper == "insert_python_exec" else "eval")
         mine = [(fn, a) for fn, a in reduces if isinstance(fn, tuple) and fn[:3] == ("global", mod, attr)]
-        if len(mine) == 1 and len(reduces) == 1 and list(_value_of(mine[0][1])) == list(args):
+        if len(mine) == 1 and len(reduces) == 1 and _strict_eq(list(_value_of(mine[0][1])), list(args)):
             rep.ok("C08.once", q, f"[{label}] exactly one REDUCE of {mod}.{attr} with the given arguments", where)
         else:
             rep.bad("C08.once", q, f"call-count:{label0}", f"[{label}] REDUCEs performed: {[(fn, _value_of(a)) for fn, a in reduces]!r}; expected exactly one call of {mod}.{attr}{tuple(args)!r}", f.file, f.line)
@@ -570,5 +710,20 @@ def run(rep: Report, tier: str):
             rep.ok("C08.prefix", f"{P}.insert_python", f"header {hdr or '[]'}: injected block sits right after it, contiguous, before the body", f"{ip.file}:{ip.line}")
         else:
             rep.bad("C08.prefix", f"{P}.insert_python", f"prefix-position:{'+'.join(hdr) or 'none'}", f"with header {hdr} the rewritten list is `{' '.join(ops_)}`: the injected block is not contiguous right after the header", ip.file, ip.line)
+    # compile() inherits the __future__ flags of the module that calls it unless dont_inherit=True: a `from __future__ import
+    # annotations` in fickle.py would silently change how the injected function's source is compiled (string annotations)
+    fm = repo.module("fickling.fickle")
+    futures = sorted({a.name for st in fm.tree.body if isinstance(st, ast.ImportFrom) and st.module == "__future__" for a in st.names})
+    for g_ in repo.functions.values():
+        if g_.module is not fm:
+            continue
+        for n_ in body_walk(g_.node):
+            if isinstance(n_, ast.Call) and dotted(n_.func) == "compile":
+                di = next((k.value for k in n_.keywords if k.arg == "dont_inherit"), n_.args[4] if len(n_.args) > 4 else None)
+                isolated = isinstance(di, ast.Constant) and bool(di.value)
+                if futures and not isolated:
+                    rep.bad("C08.once", g_.qualname, "compile-inherits-future-flags:" + ",".join(futures), f"`{src(n_)[:70]}` compiles the injected source with the compiler flags of fickle.py itself (`from __future__ import {', '.join(futures)}`): the precompiled variant of the injected function no longer means what its source means (e.g. annotations stay strings), unlike the plain-source variant", g_.file, n_.lineno)
+                else:
+                    rep.ok("C08.once", g_.qualname, "compile() of the injected source is not affected by __future__ flags of the calling module" + (" (dont_inherit=True)" if isolated else " (the module has none)"), f"{g_.file}:{n_.lineno}")
     if n_eval < 20:
         raise AnalysisError(f"only {n_eval} template cases could be evaluated")
